@@ -51,8 +51,10 @@ def _sim_spec(draw, tier):
     modes = [draw(st.sampled_from(MODES)) for _ in range(n)]
     order = draw(st.lists(st.integers(0, max(n - 1, 0)), min_size=0, max_size=2 * n)) if n else []
     m = (1 << n) - 1
+    edge_bits = [k for k in (62, 63, 64, 65, 126, 127, 128, 191, 192, 255, 256) if k < n] or [max(n - 1, 0)]
     mask = st.one_of(st.integers(0, m), st.sampled_from([0, m, 1, m >> 1]),
-                     st.integers(0, max(n - 1, 0)).map(lambda k: 1 << k))
+                     st.integers(0, max(n - 1, 0)).map(lambda k: 1 << k),
+                     st.sampled_from(edge_bits).map(lambda k: (1 << k) & m))      # one event at a word boundary
     ncyc = draw(st.integers(4, 40 if tier == "quick" else 100)) if n <= 10 else draw(st.integers(8, 24))
     if n <= 10 and draw(st.integers(0, 19)) == 0:
         ncyc = draw(st.integers(300, 600))     # occasionally a long run
